@@ -19,6 +19,7 @@ from vf import core, rvdrive, toydrive
 from vf.core import Violation
 from vf.gen import asmgen, cachecfg, rvprog
 from vf.props import c06, c19
+B, T = rvprog.B, rvprog.T
 from vf.ref import asm, rv32
 
 ID = "C15"
@@ -67,6 +68,7 @@ def check_text(case, stats):
     old = signal.signal(signal.SIGALRM, _alarm)
     signal.alarm(120)
     outcome = "ok"
+    ln = None
     try:
         try:
             sim.load_program(text)
@@ -90,6 +92,17 @@ def check_text(case, stats):
         raise Violation("load-raises-other:RecursionError", case, repr(ex)[:200])
     except Exception as ex:
         raise Violation("load-raises-other:" + type(ex).__name__, case, f"{type(ex).__name__}: {ex}")
+    # the same text once more into the same (not started) simulation: same verdict, same line
+    try:
+        sim.load_program(text)
+        again = "ok"
+    except (ParserException, MemorySizeException, MemoryAddressError) as ex:
+        again = type(ex).__name__ + ":" + str(getattr(ex, "line_number", ""))
+    except Exception as ex:
+        raise Violation("load-raises-other:" + type(ex).__name__, case, f"second load of the same text: {type(ex).__name__}: {ex}")
+    first = outcome if outcome == "ok" else outcome + ":" + str(ln if outcome not in ("MemorySizeException", "MemoryAddressError") else "")
+    if again != first:
+        raise Violation("second-load-differs", case, f"first load: {first}; loading the same text again into the same simulation: {again}")
     stats.count(case, outcome != "ok", {"isa:" + case["isa"], "outcome:" + outcome, "src:" + case.get("src", "?")},
                 sample_tag=case["isa"] + ":" + outcome)
 
@@ -298,7 +311,13 @@ def crossing_case(draw):
     if idx:
         i = draw(st.sampled_from(idx))
         ins = list(c["prog"][i])
-        ins[3] += draw(st.integers(1, 3))
+        base = c["regs"].get("8")
+        how = draw(st.sampled_from(["cross", "cross", "range"]))
+        if how == "range" and ins[0] in rv32.STORE_OPS + rv32.LOAD_OPS and (ins[1] if ins[0] in rv32.STORE_OPS else ins[2]) == 8 and base in (B, T - 64):
+            # ... or keeps its alignment and leaves the valid data range (just below the first data address / wrapping to 0)
+            ins[3] = -4 * draw(st.integers(1, 2)) if base == B else 64 + 4 * draw(st.integers(0, 2))
+        else:
+            ins[3] += draw(st.integers(1, 3))
         c["prog"][i] = ins
     return dict(c, kind="run", mode=draw(st.sampled_from(["single", "five"])), max=150,
                 dcache=draw(st.one_of(cachecfg.small_cache_config(), cachecfg.cache_config())), icache=None)
